@@ -55,6 +55,7 @@ type travScen struct {
 	target   [20]byte
 	k, alpha int
 	rej      map[string]bool // rejected IPs (hex)
+	rejID    map[string]bool // rejected node IDs (hex): the filter depends on the identity, as Server.TraversalNodeFilter does
 	needData bool
 	nodes    map[string]*gnode
 	op       *traversal.Operation
@@ -128,6 +129,12 @@ func (t *travScen) filter(a types.AddrMaybeId) bool {
 	var ip []byte
 	if a.Addr.Addr().IsValid() {
 		ip = a.Addr.Addr().AsSlice()
+	}
+	if a.Id.Ok {
+		id := a.Id.Value.AsByteArray()
+		if t.rejID[hx(id[:])] {
+			return false
+		}
 	}
 	return !t.rej[hx(ip)]
 }
@@ -283,7 +290,7 @@ func runTrav(r *Run) {
 }
 
 func (r *Run) newTravScen(i int) *travScen {
-	t := &travScen{r: r, target: r.randID(), parked: map[string]*parkedQ{}, perAddr: map[string]int{}, rej: map[string]bool{},
+	t := &travScen{r: r, target: r.randID(), parked: map[string]*parkedQ{}, perAddr: map[string]int{}, rej: map[string]bool{}, rejID: map[string]bool{},
 		nodes: map[string]*gnode{}, responders: map[string]respRec{}, reported: map[string]bool{}}
 	t.k = []int{1, 2, 3, 8, 8, 16}[r.rng.Intn(6)]
 	t.alpha = []int{1, 2, 3, 3, 15}[r.rng.Intn(5)]
@@ -311,6 +318,11 @@ func (r *Run) newTravScen(i int) *travScen {
 		switch r.rng.Intn(8) {
 		case 0:
 			g.respID = r.randID() // lies about its ID
+			if r.rng.Intn(2) == 0 {
+				// ... and the ID it answers with is one the node filter rejects: it is queried (advertised
+				// under an acceptable ID, or as an ID-less seed) but must not enter the result set
+				t.rejID[hx(g.respID[:])] = true
+			}
 		case 1:
 			if len(list) > 0 {
 				g.respID = list[r.rng.Intn(len(list))].id // duplicate ID
@@ -325,6 +337,9 @@ func (r *Run) newTravScen(i int) *travScen {
 		t.nodes[g.key()] = g
 		if r.rng.Intn(10) == 0 {
 			t.rej[hx(g.ip)] = true
+		}
+		if r.rng.Intn(14) == 0 {
+			t.rejID[hx(g.id[:])] = true // rejected under its advertised ID; ID-less seeds still reach it
 		}
 	}
 	dup := false
@@ -366,7 +381,16 @@ func (r *Run) newTravScen(i int) *travScen {
 	if t.needData {
 		df = "str"
 	}
-	t.op_(fmt.Sprintf("TRAV new %s %d %d %s %s", hx(t.target[:]), t.k, t.alpha, rejS, df), "ok")
+	var rejIDs []string
+	for id := range t.rejID {
+		rejIDs = append(rejIDs, id)
+	}
+	sort.Strings(rejIDs)
+	rejIDS := strings.Join(rejIDs, ",")
+	if rejIDS == "" {
+		rejIDS = "-"
+	}
+	t.op_(fmt.Sprintf("TRAV new %s %d %d %s %s %s", hx(t.target[:]), t.k, t.alpha, rejS, df, rejIDS), "ok")
 	// seeds
 	var seeds []cand
 	for j := 0; j < 1+r.rng.Intn(5); j++ {
@@ -563,7 +587,7 @@ func (t *travScen) release(key string, p *parkedQ) {
 		}
 		// truth for C02: a responder that passes both filters
 		passData := !t.needData || g.token != nil
-		if !t.rej[hx(p.addr.IP)] && passData {
+		if !t.rej[hx(p.addr.IP)] && !t.rejID[hx(g.respID[:])] && passData {
 			t.responders[hx(g.respID[:])+"/"+key] = respRec{g.respID, p.addr.IP, p.addr.Port, g.token}
 		}
 	}
